@@ -251,6 +251,23 @@ def check_props(pid, extra_targets=()):
             res["log"] = "unexpected axioms: %s" % sorted(names - ALLOWED_AXIOMS)
             res["failed_theorem"] = "Print Assumptions"
             return res
+    if os.environ.get("VERIF_TIER_EFFECTIVE") == "thorough":
+        # independent re-check of the compiled property file and everything it depends on
+        with Lock("coq"):
+            p = run(["timeout", "1500", "coqchk", "-o", "-silent", "-Q", ".", "Brood", "Brood.Props.%s" % pid], cwd=COQ, check=False,
+                    timeout=1600)
+        res["coqchk"] = p.stdout[-1500:]
+        if p.returncode != 0:
+            res["log"] = "coqchk failed: " + p.stdout[-3000:]
+            res["failed_theorem"] = "coqchk Props/%s" % pid
+            return res
+        m = re.search(r"Axioms:\s*(.*)", p.stdout, re.S)
+        ax = m.group(1).strip() if m else ""
+        res["coqchk_axioms"] = ax[:500]
+        if ax and not ax.startswith("<none>"):
+            res["log"] = "coqchk reports axioms: " + ax[:1000]
+            res["failed_theorem"] = "coqchk axioms"
+            return res
     res["ok"] = True
     res["discharged"] = res["obligations"]
     res["log"] = out[-2000:]
